@@ -12,7 +12,7 @@ from ..engine.explore import Outcome
 from . import signals
 
 PID = 'C01'
-TIMEOUT = 30.0
+TIMEOUT = 300.0
 RULE = ('every signal of F x every configuration of G (signals whose input already has too few extrema run a 12-point '
         'sub-grid, all take the same one-evaluation path); non-trivial = the decomposition has >= 2 columns')
 ASSUMPTIONS = ['EMDSiftCovergeError raised by an extraction is outside C01 (C04 judges it) and is only counted',
